@@ -128,6 +128,8 @@ def judge(case):
     _interleaved(case, source, results, out)
     _seekable(case, source, results, out, bounds)
     _typed(case, source, results, out, bounds)
+    if case.get("sockets"):
+        _sockets(case, source, out, bounds)
     out.states = len({e[1] if e[0] != "pair" else e[2] for _k, (_p, rec) in results.items()
                       for e in rec["events"]})
     out.nontrivial = not all_valid or any(i["kind"] == "skip" for i in its)
@@ -237,6 +239,82 @@ def _typed(case, source, results, out, bounds):
     _cross(case, bounds, runs, out, "a stream that returns bytearray")
 
 
+def _sockets(case, source, out, bounds):
+    """
+    The same stream over a socket, plain and under each transfer encoding (chunked, chunked + gzip /
+    zlib / raw deflate): the frames a configuration hands out must be the expected ones for its
+    options.  Differential within one (socket, encoding) kind: when EVERY configuration misses its
+    expectation the kind itself is at fault (other properties' subject); when some meet it and
+    others do not, an option has changed what is read.
+    """
+    import zlib  # pylint: disable=import-outside-toplevel
+
+    from pyrtcm import RTCMReader  # pylint: disable=import-outside-toplevel
+    from mc.doubles import SegSocket  # pylint: disable=import-outside-toplevel
+
+    lib = H.lib_exceptions()
+
+    def wire_for(enc):
+        if enc == 0:
+            return source
+        w = b""
+        for k in range(0, len(source), 23):
+            part = source[k:k + 23]
+            if enc & 2:
+                co = zlib.compressobj(6, zlib.DEFLATED, zlib.MAX_WBITS | 16)
+                part = co.compress(part) + co.flush()
+            elif enc & 4:
+                part = zlib.compress(part)
+            elif enc & 8:
+                co = zlib.compressobj(6, zlib.DEFLATED, -zlib.MAX_WBITS)
+                part = co.compress(part) + co.flush()
+            w += f"{len(part):x}".encode() + b"\r\n" + part + b"\r\n"
+        return w + b"0\r\n\r\n"
+
+    for enc in (0, 1, 3, 5, 9):
+        wire = wire_for(enc)
+        verdicts = {}
+        for key in CFGS:
+            v, p, lm, q = key
+            if lm != 1:
+                continue
+            sock = SegSocket(wire, [7, 40, 3])
+            raws = []
+            try:
+                rdr = RTCMReader(sock, validate=v, quitonerror=q, parsed=p, labelmsm=lm, encoding=enc,
+                                 errorhandler=lambda e: None)
+                for _ in range(len(source) + 8):
+                    try:
+                        raw, msg = rdr.read()
+                    except lib:
+                        continue
+                    if raw is None and msg is None:
+                        break
+                    raws.append(bytes(raw))
+            except Exception as err:  # pylint: disable=broad-except
+                raws = f"{type(err).__name__}: {err}"
+            finally:
+                sock.close()
+            want = [i["data"] for _a, _b, i in bounds
+                    if i["kind"] != "short" and _delivered(i["kind"], v, p)]
+            shorts = {i["data"] for _a, _b, i in bounds if i["kind"] == "short"}
+            got = [r for r in raws if r not in shorts] if isinstance(raws, list) else raws
+            verdicts[key] = (got == want, got, want)
+            out.transitions += 1
+        good = [k for k, (ok, _g, _w) in verdicts.items() if ok]
+        badk = [k for k, (ok, _g, _w) in verdicts.items() if not ok]
+        if good and badk:
+            k = badk[0]
+            _ok, got, want = verdicts[k]
+            out.bad("option-changes-bytes-taken:socket",
+                    f"{case['name']} over a socket with encoding={enc}: reader(validate={k[0]}, parsed={k[1]}, "
+                    f"quitonerror={k[3]}) hands out "
+                    f"{[len(r) for r in got] if isinstance(got, list) else got} (frame lengths), expected "
+                    f"{[len(r) for r in want]}; configurations {good[:3]} over the same socket meet their "
+                    f"expectation")
+            return
+
+
 def _seekable(case, source, results, out, bounds):
     """The same stream as a seekable io.BytesIO."""
     import io  # pylint: disable=import-outside-toplevel
@@ -336,14 +414,15 @@ def cases(tier):
     alpha = alphabet(tier)
     out = []
     for combo in itertools.product(alpha, repeat=1):
-        out.append({"name": "+".join(i["name"] for i in combo), "items": list(combo)})
+        out.append({"name": "+".join(i["name"] for i in combo), "items": list(combo), "sockets": True})
     core_items = [a for a in alpha if a["kind"] != "damaged"]
     dmg = [a for a in alpha if a["kind"] == "damaged"]
     sel = dmg if tier == "thorough" else [d for d in dmg if d["name"].split("~")[1] in
                                           ("0", "7", "8", "16", "23", "zero", "copy", "24")]
     small = core_items + sel
-    for combo in itertools.product(small, repeat=2):
-        out.append({"name": "+".join(i["name"] for i in combo), "items": list(combo)})
+    for k, combo in enumerate(itertools.product(small, repeat=2)):
+        out.append({"name": "+".join(i["name"] for i in combo), "items": list(combo),
+                    "sockets": tier == "thorough" or k % 5 == 0})
     tri = core_items + [d for d in dmg if d["name"].split("~")[1] in ("0", "7", "8", "15", "16", "23")]
     if tier == "quick":
         tri = core_items[:5] + [d for d in dmg if d["name"] in ("F2~23", "F19~0", "Fmsm~8", "F19~zero",
